@@ -383,7 +383,21 @@ def run_case(case):
     deleted_before_reopen = False
     removed_prekeys = []
     try:
-        store = LiteAxolotlStore(dbpath)
+        if case.get("first_open_killed_after") is not None:
+            # the account's very first start was cut short: the process that created the key store died after the k-th statement
+            # of creating it.  The next start opens what is there and completes it; everything after that is an ordinary history
+            rc, report = _run_in_other_process(dbpath, home, {"first_open_killed_after": int(case["first_open_killed_after"])})
+            if rc not in (0, 9):
+                raise RuntimeError("store child failed: rc=%s %s" % (rc, report[-400:]))
+            out.label("first_open:" + ("killed" if rc == 9 else "completed"))
+            nt = True
+            try:
+                store = LiteAxolotlStore(dbpath)
+            except Exception as e:
+                out.fail("crash", "first_open_killed:store_does_not_open", {"after": case["first_open_killed_after"], "error": repr(e)[:300]})
+                return out
+        else:
+            store = LiteAxolotlStore(dbpath)
         own = read_store(store, P)["own"]
         model = Model()
         for step, op in enumerate(case["ops"]):
@@ -792,6 +806,15 @@ def _enum_basic():
                                     ["store_session", 1, 3], ["delete_all", 1], ["reopen"]]}
 
 
+def _enum_first_open_killed():
+    """the process creating the store dies after its k-th statement; then every replaceable record is stored and replaced"""
+    for k in range(1, 13):
+        yield {"sub": "script", "crash": False, "first_open_killed_after": k,
+               "ops": [["save_identity", 0, 0], ["store_session", 0, 0], ["store_sender_key", 0, 0, 0], ["store_prekey"], ["store_signed"],
+                       ["save_identity", 0, 1], ["store_session", 0, 1], ["store_sender_key", 0, 0, 1], ["store_sender_key", 0, 0, 2], ["reopen"],
+                       ["store_sender_key", 0, 0, 0], ["store_session", 0, 2], ["set_sent", [0]], ["reopen"]]}
+
+
 def _enum_other_process():
     yield {"sub": "script", "crash": False, "other_process": True,
            "ops": [["save_identity", 0, 0], ["store_session", 0, 0], ["store_prekey"], ["store_prekey"], ["store_signed"], ["store_sender_key", 0, 0, 0],
@@ -826,15 +849,19 @@ def plan(tier):
     other = st.lists(op_strategy(), min_size=2, max_size=8).map(lambda ops: {"sub": "script", "crash": False, "other_process": True, "ops": ops})
     orderly = st.tuples(st.lists(op_strategy(), min_size=2, max_size=8), st.integers(0, 7), st.integers(0, 2)).map(
         lambda t: {"sub": "script", "crash": False, "orderly_abort": [t[1], t[2]], "ops": t[0]})
+    first_open = st.tuples(st.lists(op_strategy(), min_size=2, max_size=10), st.integers(1, 10)).map(
+        lambda t: {"sub": "script", "crash": False, "first_open_killed_after": t[1], "ops": t[0]})
     return {
         "shards": 16,
         "enumerations": [("basic_scripts", _enum_basic), ("syscall_crash_sweep", _enum_syscall_crash), ("other_process_basic", _enum_other_process),
-                         ("orderly_termination_basic", _enum_orderly),
+                         ("orderly_termination_basic", _enum_orderly), ("first_open_killed_sweep", _enum_first_open_killed),
                          ("own_identity_key_patterns", lambda: iter([{"sub": "own_identity", "first_byte": b, "ops": []} for b in (0x05, 0x00, 0xff, None)]))],
         "strategies": [("scripts", script, 60 if quick else 1500), ("updates_by_another_process", other, 4 if quick else 60),
-                       ("orderly_termination_in_mid_update", orderly, 6 if quick else 100)],
+                       ("orderly_termination_in_mid_update", orderly, 6 if quick else 100),
+                       ("history_after_a_first_open_that_was_killed", first_open, 3 if quick else 60)],
         "shrink": "ddmin",
         "budget_s": 150 if quick else 1500,
     }
 
 RULE += (' Also: session replacement through AxolotlManager.create_session (accepted and refused key bundles); orderly termination (SIGTERM handled with sys.exit) after the k-th statement of an update run in a child process; own identity key pairs whose public key begins with 0x05 / 0x00 / 0xff.')
+RULE += (" Also: histories on a store whose very first open (creation) was cut short by process death after its k-th statement (k = 1..12 enumerated, generated histories).")
